@@ -2,7 +2,7 @@
 from . import core
 from .core import Finding, sx
 
-THEOREMS = ["Cspuz.C13.C13_getitem", "Cspuz.C13.C13_reshape"]
+THEOREMS = ["Cspuz.C13.C13_getitem", "Cspuz.C13.C13_reshape", "Cspuz.C13.C13_nested", "Cspuz.C13.C13_nested_getitem"]
 
 
 def _arrays(h, w, nested=False):
@@ -95,6 +95,57 @@ def oracle1(n, k):
         return ["err", core.err_name(e)]
 
 
+NESTED_FORMS = ("list", "tuple", "iter")
+
+
+def _wrap(seq, form):
+    seq = list(seq)
+    return seq if form == "list" else tuple(seq) if form == "tuple" else iter(seq)
+
+
+def real_nested(rows, form="list", boolean=True):
+    """Array2D(rows) with the shape inferred, on the REAL classes: rows of BoolVar / IntVar carrying the given ids, the rows and
+    the outer sequence being lists, tuples or one-shot iterators.  -> ["ok", h, w, id...] or ["err", ExceptionClass]."""
+    from cspuz.array import BoolArray2D, IntArray2D
+    from cspuz.expr import BoolVar, IntVar
+    mk = (lambda i: BoolVar(i)) if boolean else (lambda i: IntVar(i, 0, 1))
+    data = _wrap([_wrap([mk(i) for i in r], form) for r in rows], form)
+    try:
+        a = (BoolArray2D if boolean else IntArray2D)(data)
+        return ["ok"] + list(a.shape) + [e.id for e in a.data]
+    except Exception as e:
+        return ["err", core.err_name(e)]
+
+
+def oracle_nested(rows):
+    """The property's reading, plain Python: the array equivalent to the list of lists `rows` has shape (len(rows), len(rows[0]))
+    and row-major data; no rows / rows of different lengths cannot be an array (ValueError)."""
+    if len(rows) == 0 or any(len(r) != len(rows[0]) for r in rows):
+        return ["err", "ValueError"]
+    return ["ok", len(rows), len(rows[0])] + [e for r in rows for e in r]
+
+
+def _nested_cases(rng, maxh=4, maxw=4, ids="random"):
+    """(label, nested list of ids): every shape 1x0 .. maxh x maxw, the empty list, a single empty row, and for every shape the
+    jagged variants with one short / one long row at every row position (the first row included)."""
+    cases = [("empty", []), ("rect", [[]])]
+    for h in range(1, maxh + 1):
+        for w in range(0, maxw + 1):
+            if ids == "random":
+                pool = rng.sample(range(0, 1000), h * w + 1)
+            else:
+                pool = list(range(h * w + 1))
+            rows = [pool[y * w:(y + 1) * w] for y in range(h)]
+            if (h, w) != (1, 0):
+                cases.append(("rect", rows))
+            if h >= 2:
+                for y in range(h):
+                    if w >= 1:
+                        cases.append(("jagged-short", [r[:-1] if i == y else list(r) for i, r in enumerate(rows)]))
+                    cases.append(("jagged-long", [list(r) + [pool[h * w]] if i == y else list(r) for i, r in enumerate(rows)]))
+    return cases
+
+
 def _axis_keys(bound, steps):
     ks = [("i", i) for i in range(-bound, bound + 1)]
     opts = [None] + list(range(-bound - 1, bound + 2))
@@ -151,7 +202,10 @@ def correspond(ctx):
     ctx.extra["rule"] = ("exhaustive sweep of every per-axis key (ints and slices with bounds in [-b-1,b+1] or None, steps in "
                          "[-s,s] or None) on every shape up to d x d, plus random key pairs, large bounds, coordinate lists; "
                          "real Array2D/Array1D __getitem__ vs Lean model vs Lean spec vs CPython list-of-lists oracle; "
-                         "a case is non-trivial+distinct by (shape, key) when the selection is non-empty or an error")
+                         "a case is non-trivial+distinct by (shape, key) when the selection is non-empty or an error; "
+                         "nested-list constructor: every shape 1x0..4x4 with random distinct ids, the empty list, one short / one long row at "
+                         "every position, random rectangular/jagged lists; rows as lists, tuples, iterators; Bool and Int classes; real "
+                         "(shape, ids) or exception class vs the model's ofNested (distinct by the nested list)")
     cases = _cases(ctx)
     drv = core.Driver()
     lines = []
@@ -191,6 +245,30 @@ def correspond(ctx):
             ctx.disagree("model-vs-code", shape=[h, w], key=sx(key), real=sx(r), model=sx(m))
         if os_ != s:
             ctx.disagree("spec-vs-cpython", shape=[h, w], key=sx(key), cpython=sx(o), spec=sx(s))
+    # the nested-list constructor itself: Array2D(rows) with the shape inferred (_infer_shape + _flatten) vs the model's ofNested
+    ncases = _nested_cases(ctx.rng, 4, 4)
+    for _ in range(ctx.n(300, 3000)):
+        h = ctx.rng.randint(1, 6)
+        lens = [ctx.rng.randint(0, 5)] * h
+        if ctx.rng.random() < 0.5:
+            lens = [l if ctx.rng.random() < 0.7 else ctx.rng.randint(0, 5) for l in lens]
+        rows = [[ctx.rng.randint(0, 999) for _ in range(l)] for l in lens]
+        ncases.append(("random-rect" if len(set(lens)) == 1 else "random-jagged", rows))
+    outs = drv.run([sx(["nested"] + rows) for (_, rows) in ncases])
+    for (label, rows), out in zip(ncases, outs):
+        m = core.parse_sx(out)
+        o = oracle_nested(rows)
+        ctx.count("nested-ctor:" + label)
+        ctx.case({"nested": sx(rows), "model": out}, ("nested", sx(rows)))
+        if [str(x) for x in o] != m:
+            ctx.disagree("nested-constructor-spec", nested=sx(rows), model=out, list_of_lists=sx(o))
+        for form in NESTED_FORMS:
+            for b in (True, False):
+                r = real_nested(rows, form, b)
+                ctx.count("nested-ctor-form:" + form)
+                if [str(x) for x in r] != m:
+                    ctx.disagree("nested-constructor", nested=sx(rows), rows_as=form, cls="BoolArray2D" if b else "IntArray2D",
+                                 real=sx(r), model=out)
     # 1-D arrays
     lines = []
     c1 = []
@@ -308,6 +386,18 @@ def search(ctx, why):
     full = ("s", None, None, None)
     keys = _axis_keys(4, [None, -2, -1, 0, 1, 2])
     found = {}
+    # the nested-list constructor: real (shape, ids) / exception vs the plain list-of-lists reading
+    import random as _random
+    for (label, rows) in _nested_cases(_random.Random(0), 4, 4, ids="sequential"):
+        for form in NESTED_FORMS:
+            for b in (True, False):
+                r = real_nested(rows, form, b)
+                o = oracle_nested(rows)
+                if r != o and "ctor" not in found:
+                    found["ctor"] = Finding(
+                        "constructor:nested",
+                        f"{'BoolArray2D' if b else 'IntArray2D'}({rows}) (rows as {form}) gives {sx(r)} but the list of lists is {sx(o)}",
+                        {"nested": rows, "form": form, "boolean": b, "real": r, "expected": o})
     for h in range(0, 4):
         for w in range(0, 4):
             for k in keys:
@@ -357,6 +447,15 @@ def search(ctx, why):
 
 
 def replay(ctx, data):
+    if "nested" in data:
+        rows = [list(r) for r in data["nested"]]
+        o = oracle_nested(rows)
+        for form in ([data["form"]] if data.get("form") in NESTED_FORMS else []) + list(NESTED_FORMS):
+            for b in (bool(data.get("boolean", True)), not bool(data.get("boolean", True))):
+                r = real_nested(rows, form, b)
+                if r != o:
+                    return Finding("constructor:nested", f"Array2D({rows}) (rows as {form}) gives {sx(r)} but the list of lists is {sx(o)}", data)
+        return None
     if data.get("reshape"):
         fs = [f for f in search(ctx, {}) if f.signature == "reshape"]
         return fs[0] if fs else None
